@@ -187,6 +187,7 @@ def run(ctx):
     finally:
         xh.Runner.__init__ = orig_init
     etag_sensitivity(ctx)
+    two_instance_freshness(ctx)
     race(ctx)
 
 
@@ -247,6 +248,46 @@ def etag_sensitivity(ctx):
                 return
             ctx.case(("coll-state", key), nontrivial=bool(items))
         ctx.count("etag-sensitivity-steps", ctx.n(120, 1500))
+
+
+def two_instance_freshness(ctx):
+    """Several server processes on one storage folder (the documented multi-worker set-up): every ETag an instance announces
+    reflects the writes of the OTHER instance (nothing about a collection or item may be remembered across requests)."""
+    conf = {"auth": {"type": "none"}, "rights": {"type": "authenticated"}}
+    with impl.Server(conf=conf) as a:
+        b = impl.Server(conf=conf, folder=a.folder)
+        a.mkcol("/u/")
+        a.mkcalendar("/u/c/")
+        a.put("/u/c/e.ics", impl.event("e", summary="v0"), login="u:")
+
+        def view(srv):
+            st, ms = srv.propfind("/u/c/", depth="1", props=("D:getetag", "CS:getctag", "D:sync-token"), login="u:")
+            out = {}
+            for href, props in (ms or {}).items():
+                if isinstance(props, dict):
+                    out[href] = tuple((k, props[k][1].text) for k in ("D:getetag", "CS:getctag") if k in props and props[k][0] == 200)
+            hg = srv.request("GET", "/u/c/", login="u:")[1].get("ETag")
+            hi = srv.request("HEAD", "/u/c/e.ics", login="u:")[1].get("ETag")
+            return out, hg, hi
+        steps = [("PUT item", lambda: a.put("/u/c/e.ics", impl.event("e", summary="v1"), login="u:")),
+                 ("PUT new item", lambda: a.put("/u/c/f.ics", impl.event("f", summary="w"), login="u:")),
+                 ("PROPPATCH", lambda: a.request("PROPPATCH", "/u/c/", login="u:", data='<?xml version="1.0"?><D:propertyupdate xmlns:D="DAV:">'
+                                                 '<D:set><D:prop><D:displayname>n</D:displayname></D:prop></D:set></D:propertyupdate>')),
+                 ("DELETE item", lambda: a.request("DELETE", "/u/c/f.ics", login="u:")),
+                 ("MOVE item", lambda: a.request("MOVE", "/u/c/e.ics", login="u:", HTTP_HOST="127.0.0.1",
+                                                 HTTP_DESTINATION="http://127.0.0.1/u/c/g.ics"))]
+        view(b)
+        for what, act in steps:
+            before_b = view(b)
+            act()
+            after_a, after_b = view(a), view(b)
+            ctx.case(("two-instance", what), nontrivial=True)
+            ctx.count("two-instance-freshness-steps")
+            if after_b != after_a or after_b == before_b:
+                ctx.violation("after a %s through one server instance, the other instance on the same folder %s" % (
+                    what, "still announces the old ETags" if after_b == before_b else "announces other ETags than the writer"),
+                    dict(step=what, writer_view=repr(after_a)[:1500], other_view=repr(after_b)[:1500], other_view_before=repr(before_b)[:1500]))
+                return
 
 
 def race(ctx):
